@@ -30,11 +30,14 @@ VARIABLES l,      \* next trace line
                   \*   has named the handle since
           memo,   \* frame -> outcome of its first decode in this program
           diag,   \* handle -> [string, dump] of the last Diag
+          smemo,  \* stream bytes -> outcomes <<ok, type>> of the successive calls of its first, undisturbed delivery (C07)
+          ncall,  \* number of ReadPacket calls made on the current stream
+          bystate,\* <<type, accessor record>> -> bytes of the first complete encoding of a packet in that state (C11)
           wanted    \* handle -> accessor record of a packet built through the API as the calls alone determine it: pool is
                   \*   re-synchronised to the observation after a divergence (so that one defect is reported once under
                   \*   C12), wanted never is; "the values that were set" of C01 / C02 are wanted
 
-tvars == <<l, k, ph, prog, from, contig, enc, memo, diag, wanted, pool, svars>>
+tvars == <<l, k, ph, prog, from, contig, enc, memo, diag, wanted, smemo, ncall, bystate, pool, svars>>
 
 (* register 1: the notes kept (at most MaxPerProp per property); register 2: property -> number of notes *)
 MaxPerProp == 60
@@ -101,7 +104,7 @@ WFCheck(t, o, obs) ==
 (*                       events other than Read                            *)
 (***************************************************************************)
 KeepStream == UNCHANGED svars
-KeepAux == UNCHANGED <<from, contig, enc, memo, diag>>
+KeepAux == UNCHANGED <<from, contig, enc, memo, diag, smemo, ncall, bystate>>
 (* the event names handle h: its last encoding no longer stands for an untouched packet *)
 Touch(h) == enc' = IF h \in DOMAIN enc THEN [enc EXCEPT ![h].clean = FALSE] ELSE enc
 (* what was set on handle h through the API (wanted), else what the model holds for it *)
@@ -111,11 +114,36 @@ WillOfW(g, h) == g \in DOMAIN wanted /\ "Will" \in DOMAIN wanted[g] /\ wanted[g]
 RelinkW(w, h) == [g \in DOMAIN w |-> IF g # h /\ WillOfW(g, h) /\ h \in DOMAIN w
                                       THEN [w[g] EXCEPT !["Will"] = [@ EXCEPT !.val = WillSnapshot(w[h]), !.stale = TRUE]]
                                       ELSE w[g]]
-KeepAuxTouch(h) == UNCHANGED <<from, contig, memo, diag>> /\ Touch(h)
+KeepAuxTouch(h) == UNCHANGED <<from, contig, memo, diag, smemo, ncall, bystate>> /\ Touch(h)
+
+(* the accessor record as a key: the will compared by what it carries, not by which handle it is *)
+StateKey(o) == IF "Will" \in DOMAIN o
+               THEN [o EXCEPT !["Will"] = IF @.has THEN [has |-> TRUE, val |-> @.val] ELSE [has |-> FALSE]]
+               ELSE o
+
+(* C07 on the level of a whole stream: the first delivery of a byte string that is neither fragmented, faulty nor handed over *)
+(* through another reader fixes, call by call, whether a packet comes back and of which type; every other delivery of the   *)
+(* same bytes in the same program must give the same outcome at the same call (compared while the stream is not cut short). *)
+StreamMemo(e, other) ==
+  LET k1 == ncall + 1
+      out == <<e.ok, IF Has(e, "type") THEN e.type ELSE "">>
+      whole == limit = Len(wire) /\ fate = "eof"
+  IN /\ ncall' = k1
+     /\ IF ~other /\ whole
+        THEN /\ smemo' = IF wire \in DOMAIN smemo
+                         THEN (IF Len(smemo[wire]) = ncall THEN [smemo EXCEPT ![wire] = Append(@, out)] ELSE smemo)
+                         ELSE IF ncall = 0 THEN (wire :> <<out>>) @@ smemo ELSE smemo
+        ELSE /\ UNCHANGED smemo
+             /\ IF whole /\ wire \in DOMAIN smemo /\ Len(smemo[wire]) >= k1
+                THEN NoteIf(smemo[wire][k1] # out, "C07",
+                            "the same stream, delivered another way, gave another outcome at the same call than when delivered in one piece",
+                            [call |-> k1, plain |-> smemo[wire][k1], now |-> out])
+                ELSE TRUE
 
 EvReset(e) ==
   /\ prog' = [id |-> e.prog, fam |-> e.fam]
   /\ pool' = EmptyFn /\ enc' = EmptyFn /\ memo' = EmptyFn /\ diag' = EmptyFn /\ wanted' = EmptyFn
+  /\ smemo' = EmptyFn /\ ncall' = 0 /\ bystate' = EmptyFn
   /\ from' = 0 /\ contig' = TRUE
   /\ wire' = <<>> /\ limit' = 0 /\ fate' = "eof" /\ with' = FALSE /\ pos' = 0 /\ rp' = Idle
 
@@ -141,7 +169,8 @@ EvPub(e) ==
   /\ KeepStream /\ KeepAuxTouch(e.h) /\ UNCHANGED prog
 
 (* arguments that are handles of TopicFilter values the program keeps: the call receives a copy of the value *)
-CallArgs(e) == IF Has(e, "refs")
+CallArgs(e) == IF Has(e, "nargs") THEN e.nargs       \* an argument beyond TLC's integers, normalised by the driver to 2^31 - 1
+               ELSE IF Has(e, "refs")
                THEN [i \in 1..Len(e.args) |-> <<pool[e.args[i].h].o["Filter"], pool[e.args[i].h].o["Options"]>>]
                ELSE e.args
 EvCall(e) ==
@@ -177,6 +206,8 @@ EvWriteTo(e) ==
   LET h == e.h
       t == pool[h].t
       o == pool[h].o
+      built == h \in DOMAIN wanted    \* the packet was built through constructors and setters (C02 speaks of those; a decoded packet keeps
+                                     \* whatever its frame carried, reserved header flags included, and is judged by C16 / C12 instead)
       os == SetOf(h)                 \* what was set (differs from o only after a divergence already noted under C12)
       bytes == Concat(e.offered)
       good == e.wkind = "all"
@@ -194,24 +225,48 @@ EvWriteTo(e) ==
      /\ (~good => Count("write-faulty"))
      /\ IF good /\ t # 0 /\ InC02Domain(t, os) /\ Framed(bytes)
         THEN LET d == StrictDecode(bytes) IN
-             IF ~d.ok THEN /\ Note("C02", "frame rejected by the strict reading of MQTT v5.0", [why |-> d.why, at |-> d.at, frame |-> bytes])
+             IF ~d.ok THEN /\ NoteIf(built, "C02", "frame rejected by the strict reading of MQTT v5.0", [why |-> d.why, at |-> d.at, frame |-> bytes])
                            /\ NoteIf(prog.fam \in {"api", "reuse"}, "C12", "the encoded frame does not reflect the final state of the setters", [why |-> d.why])
-             ELSE /\ NoteIf(d.pkt.t # t, "C02", "frame carries another packet type", [t |-> d.pkt.t])
+             ELSE /\ NoteIf(built /\ d.pkt.t # t, "C02", "frame carries another packet type", [t |-> d.pkt.t])
                   /\ NoteIf(prog.fam \in {"api", "reuse"} /\ d.pkt.t = t /\ ObsDiff(os, ObsOfWire(d.pkt)) # {}, "C12",
                             "the encoded frame does not reflect the final state of the setters", [keys |-> ObsDiff(os, ObsOfWire(d.pkt))])
-                  /\ NoteIf(d.pkt.t = t /\ ObsDiff(os, ObsOfWire(d.pkt)) # {}, "C02", "frame does not carry the values that were set",
+                  /\ NoteIf(built /\ d.pkt.t = t /\ ObsDiff(os, ObsOfWire(d.pkt)) # {}, "C02", "frame does not carry the values that were set",
                             [keys |-> IF d.pkt.t = t THEN ObsDiff(os, ObsOfWire(d.pkt)) ELSE {}, frame |-> bytes])
         ELSE TRUE
      /\ IF good /\ h \in DOMAIN enc /\ enc[h].o = o
         THEN NoteIf(enc[h].bytes # bytes, "C11", "the same packet was written as different bytes", [a |-> enc[h].bytes, b |-> bytes])
         ELSE TRUE
+     /\ IF good /\ h \in DOMAIN enc /\ enc[h].clean /\ "flen" \in DOMAIN pool[h] /\ Len(bytes) > 0 /\ Len(enc[h].bytes) > 0
+        THEN NoteIf(bytes[1] # enc[h].bytes[1], "C16", "a decoded packet no operation has named no longer writes the first byte of its frame",
+                    [first |-> enc[h].bytes[1], now |-> bytes[1]])
+        ELSE TRUE
+     /\ IF good /\ h \in DOMAIN enc /\ enc[h].clean /\ "rt" \in DOMAIN enc[h]
+        THEN NoteIf(enc[h].bytes # bytes, "C01", "the decoded packet is no longer written as the bytes it was read from",
+                    [frame |-> enc[h].bytes, now |-> bytes])
+        ELSE TRUE
      /\ IF good /\ h \in DOMAIN enc /\ enc[h].clean /\ enc[h].o # o
         THEN NoteIf(enc[h].bytes # bytes, "C11", "a packet no operation has named since its last encoding is now written as different bytes",
                     [a |-> enc[h].bytes, b |-> bytes])
         ELSE TRUE
-     /\ enc' = IF good THEN (h :> [o |-> o, bytes |-> bytes, clean |-> TRUE]) @@ enc ELSE enc
+     /\ enc' = IF good
+               THEN IF h \in DOMAIN enc /\ enc[h].clean /\ "rt" \in DOMAIN enc[h]
+                    THEN enc                                                    \* still owed: the bytes it was read from
+                    ELSE (h :> [o |-> o, bytes |-> bytes, clean |-> TRUE]) @@ enc
+               ELSE enc
+     \* equal packets are written as equal bytes, whatever was called on them before (C11): the first complete encoding of a
+     \* packet in a given state (type, accessor record) fixes the bytes for every packet that is later in that state
+     /\ IF good /\ e.err = "nil" /\ t \in 1..15 /\ (t # 1 \/ ~os["Will"].has \/ "stale" \notin DOMAIN os["Will"] \/ ~os["Will"].stale)
+        THEN IF <<t, StateKey(os)>> \in DOMAIN bystate
+             THEN /\ NoteIf(bystate[<<t, StateKey(os)>>] # bytes, "C11",
+                            "two packets in the same state are written as different bytes (it depends on what was called on them before)",
+                            [a |-> bystate[<<t, StateKey(os)>>], b |-> bytes])
+                  /\ UNCHANGED bystate
+             ELSE bystate' = (<<t, StateKey(os)>> :> bytes) @@ bystate
+        ELSE UNCHANGED bystate
+     /\ NoteIf(good /\ e.err = "nil" /\ t # 0 /\ prog.fam \in {"api", "reuse"} /\ ~Framed(bytes), "C12",
+               "the bytes written after the setter history are not one frame", [n |-> Len(bytes)])
      /\ Bystanders(e, h)
-     /\ UNCHANGED <<pool, wanted, from, contig, memo, diag, prog>> /\ KeepStream
+     /\ UNCHANGED <<pool, wanted, smemo, ncall, from, contig, memo, diag, prog>> /\ KeepStream
 
 EvWriteN(e) ==
   LET h == e.h  o == pool[h].o IN
@@ -221,7 +276,7 @@ EvWriteN(e) ==
      ELSE TRUE
   /\ (Has(e, "obs") => NoteIf(ObsDiff(o, e.obs) # {}, "C11", "WriteTo changed what the accessors return", [keys |-> ObsDiff(o, e.obs)]))
   /\ enc' = IF Len(e.outs) >= 1 THEN (h :> [o |-> o, bytes |-> e.outs[1], clean |-> TRUE]) @@ enc ELSE enc
-  /\ UNCHANGED <<pool, wanted, from, contig, memo, diag, prog>> /\ KeepStream
+  /\ UNCHANGED <<pool, wanted, smemo, ncall, bystate, from, contig, memo, diag, prog>> /\ KeepStream
 
 (* values the caller keeps and reuses: a TopicFilter (type 16), a []TopicFilter passed with "..." (type 17) *)
 EvNewFilter(e) ==
@@ -270,7 +325,7 @@ EvCallElem(e) ==
 EvStream(e) ==
   /\ wire' = e.bytes /\ limit' = e.limit /\ fate' = e.fate /\ with' = e.with /\ pos' = 0 /\ rp' = Idle
   /\ from' = e.from /\ contig' = (e.contig /\ e.limit = Len(e.bytes))
-  /\ UNCHANGED <<pool, wanted, enc, memo, diag, prog>>
+  /\ ncall' = 0 /\ UNCHANGED <<pool, wanted, smemo, bystate, enc, memo, diag, prog>>
 
 (* String / Dump / WellFormed on a live packet: total (C19), consistent (C17), *)
 (* read-only (C11)                                                             *)
@@ -282,17 +337,17 @@ EvDiag(e) ==
      ELSE TRUE
   /\ (Has(e, "obs") => NoteIf(ObsDiff(o, e.obs) # {}, "C11", "String/Dump changed what the accessors return", [keys |-> ObsDiff(o, e.obs)]))
   \* as-built rendering of String (spec/MQLib.tla): a difference is a drift note, never a verdict
-  /\ IF Has(e, "first") /\ e.strN >= 0 /\ (t # 14 \/ "ReasonString" \in DOMAIN o)
+  /\ IF Has(e, "first") /\ e.strN >= 0 /\ (t # 14 \/ "ReasonString" \in DOMAIN o) /\ ~Has(e, "digested")
      THEN LET wantstr == StringOf(t, o, e.first, e.strN) IN
           NoteIf(e.string # wantstr, "DRIFT", "String() differs from the as-built rendering", [type |-> t, got |-> e.string, want |-> wantstr])
      ELSE TRUE
-  /\ IF Has(e, "dump") /\ DumpPredictable(t, o)
+  /\ IF Has(e, "dump") /\ ~Has(e, "digested") /\ DumpPredictable(t, o)
      THEN LET wantdump == DumpOf(t, o) IN
           NoteIf(e.dump # wantdump, "DRIFT", "Dump() differs from the as-built rendering", [type |-> t, got |-> e.dump, want |-> wantdump])
      ELSE TRUE
   /\ diag' = (h :> [string |-> e.string, dump |-> e.dump]) @@ diag
   /\ Bystanders(e, h)
-  /\ UNCHANGED <<pool, wanted, from, contig, enc, memo, prog>> /\ KeepStream
+  /\ UNCHANGED <<pool, wanted, smemo, ncall, bystate, from, contig, enc, memo, prog>> /\ KeepStream
 
 (* credentials replaced by [empty?, length] *)
 Redact(o) == [o EXCEPT !["Username"] = <<Len(@)>>, !["Password"] = <<Len(@)>>,
@@ -305,13 +360,13 @@ EvCmpDiag(e) ==
      THEN /\ NoteIf(diag[a].dump # diag[b].dump, "C18", "Dump depends on the content of the credentials", [hs |-> e.hs])
           /\ NoteIf(diag[a].string # diag[b].string, "C18", "String depends on the content of the credentials", [hs |-> e.hs])
      ELSE Note("SPEC", "CmpDiag on packets that are not low-equivalent", [hs |-> e.hs])
-  /\ UNCHANGED <<pool, wanted, from, contig, enc, memo, diag, prog>> /\ KeepStream
+  /\ UNCHANGED <<pool, wanted, smemo, ncall, bystate, from, contig, enc, memo, diag, prog>> /\ KeepStream
 
 EvFilter(e) ==
   LET f == <<e.args[1], e.args[2]>> IN
   /\ NoteIf(e.wfErr = FilterWF(f), "C17", "TopicFilter.WellFormed disagrees with the documented rule", [wfErr |-> e.wfErr])
   /\ NoteIf(e.filter # e.args[1] \/ e.options # e.args[2], "C12", "TopicFilter does not report its arguments", [f |-> f])
-  /\ UNCHANGED <<pool, wanted, from, contig, enc, memo, diag, prog>> /\ KeepStream
+  /\ UNCHANGED <<pool, wanted, smemo, ncall, bystate, from, contig, enc, memo, diag, prog>> /\ KeepStream
 
 (* direct UnmarshalBinary of a buffer: the result is adopted; totality and   *)
 (* list bounds are judged (C04, C05)                                         *)
@@ -331,7 +386,7 @@ EvUnmarshal(e) ==
   /\ AllocBound(e, Len(e.data))
   /\ pool' = (e.h :> [t |-> t, o |-> IF Has(e, "obs") THEN Adopt(t, e.obs) ELSE NewObs(t)]) @@ pool
   /\ Bystanders(e, e.h)
-  /\ Touch(e.h) /\ Drop(e.h) /\ UNCHANGED <<from, contig, memo, diag, prog>> /\ KeepStream
+  /\ Touch(e.h) /\ Drop(e.h) /\ UNCHANGED <<smemo, ncall, bystate, from, contig, memo, diag, prog>> /\ KeepStream
 
 (* after a divergence the model takes over what was observed, so that one defect is reported once *)
 Resync(e) == IF ~Has(e, "all") THEN pool
@@ -342,7 +397,7 @@ Resync(e) == IF ~Has(e, "all") THEN pool
 EvScribble(e) ==
   /\ Bystanders(e, 0)
   /\ pool' = Resync(e)
-  /\ UNCHANGED <<wanted, from, contig, enc, memo, diag, prog>> /\ KeepStream
+  /\ UNCHANGED <<wanted, smemo, ncall, bystate, from, contig, enc, memo, diag, prog>> /\ KeepStream
 
 (* the caller overwrote a slice it got from an accessor of e.h: that packet may change, no other *)
 EvScribbleSlice(e) ==
@@ -352,7 +407,7 @@ EvScribbleSlice(e) ==
              ELSE pool
   /\ enc' = [x \in DOMAIN enc \ {e.h} |-> enc[x]]
   /\ Drop(e.h)
-  /\ UNCHANGED <<from, contig, memo, diag, prog>> /\ KeepStream
+  /\ UNCHANGED <<smemo, ncall, bystate, from, contig, memo, diag, prog>> /\ KeepStream
 
 PanicProp(op) == IF op \in {"ReadPacket", "Unmarshal"} THEN "C04"
                  ELSE IF op = "Diag" THEN "C19"
@@ -372,10 +427,10 @@ EvPanic(e) ==
           /\ NoteIf(from # 0 /\ from \in DOMAIN enc /\ enc[from].bytes = PendingFrame, "C01", "own output made the decoder panic",
                     [site |-> e.site, frame |-> PendingFrame])
      ELSE TRUE
-  /\ UNCHANGED <<pool, wanted, from, contig, enc, memo, diag, prog>> /\ KeepStream
+  /\ UNCHANGED <<pool, wanted, smemo, ncall, bystate, from, contig, enc, memo, diag, prog>> /\ KeepStream
 EvBudget(e) ==
   /\ Note("C05", "decoding exceeded the work bound of the frame", [steps |-> e.steps, limit |-> e.limit])
-  /\ UNCHANGED <<pool, wanted, from, contig, enc, memo, diag, prog>> /\ KeepStream
+  /\ UNCHANGED <<pool, wanted, smemo, ncall, bystate, from, contig, enc, memo, diag, prog>> /\ KeepStream
 AbortProp(op) == IF op = "Diag" THEN "C19"
                  ELSE IF op \in {"WriteTo", "WriteN"} THEN "C10"
                  ELSE IF op = "Conc" THEN "C13"
@@ -383,15 +438,15 @@ AbortProp(op) == IF op = "Diag" THEN "C19"
                  ELSE "C05"                                      \* ReadPacket, Unmarshal, unknown
 EvAbort(e) ==
   /\ Note(AbortProp(e.op), "operation did not return within the time / memory budget", [why |-> e.why, op |-> e.op])
-  /\ UNCHANGED <<pool, wanted, from, contig, enc, memo, diag, prog>> /\ KeepStream
-EvOther(e) == UNCHANGED <<pool, wanted, from, contig, enc, memo, diag, prog>> /\ KeepStream
+  /\ UNCHANGED <<pool, wanted, smemo, ncall, bystate, from, contig, enc, memo, diag, prog>> /\ KeepStream
+EvOther(e) == UNCHANGED <<pool, wanted, smemo, ncall, bystate, from, contig, enc, memo, diag, prog>> /\ KeepStream
 
 (* variable byte integers through hook H1 (C15).  The driver also logs the answer of its own   *)
 (* transcription of VBI4 / VBIRead (used by the exhaustive Go sweep); it is validated here.     *)
 EvVBIEnc(e) ==
   /\ NoteIf(e.bytes # VBI(e.v), "C15", "value not written in the unique minimal form", [v |-> e.v, bytes |-> e.bytes])
   /\ NoteIf(e.ref # VBI4(e.v) \/ VBI(e.v) # VBI4(e.v), "HARNESS", "transcription of VBI4 disagrees with the specification", [v |-> e.v])
-  /\ UNCHANGED <<pool, wanted, from, contig, enc, memo, diag, prog>> /\ KeepStream
+  /\ UNCHANGED <<pool, wanted, smemo, ncall, bystate, from, contig, enc, memo, diag, prog>> /\ KeepStream
 
 EvVBIDec(e) ==
   LET r == VBIRead(e.bytes)
@@ -417,7 +472,7 @@ EvVBIDec(e) ==
   /\ NoteIf((e.ref.kind = 1) # (r.kind = "value")
             \/ (r.kind = "value" /\ (e.ref.val # r.val \/ e.ref.width # r.width \/ e.ref.minimal # r.minimal)),
             "HARNESS", "transcription of VBIRead disagrees with the specification", [bytes |-> e.bytes])
-  /\ UNCHANGED <<pool, wanted, from, contig, enc, memo, diag, prog>> /\ KeepStream
+  /\ UNCHANGED <<pool, wanted, smemo, ncall, bystate, from, contig, enc, memo, diag, prog>> /\ KeepStream
 
 (* concurrent read-only operations: every goroutine completed, produced the sequential bytes, changed nothing *)
 EvConc(e) ==
@@ -445,17 +500,23 @@ EvConc(e) ==
              /\ NoteIf(a.bytes # b.bytes, "C11", "the same packet was written as different bytes (by two goroutines at once)", [h |-> a.h])
         ELSE TRUE
   /\ Bystanders(e, 0)
-  /\ UNCHANGED <<pool, wanted, from, contig, enc, memo, diag, prog>> /\ KeepStream
+  /\ UNCHANGED <<pool, wanted, smemo, ncall, bystate, from, contig, enc, memo, diag, prog>> /\ KeepStream
 (* the first encoding of one program, executed in several worker processes (different hash seeds) *)
 EvXProc(e) ==
   /\ NoteIf(\E j \in 2..Len(e.outs) : e.outs[j] # e.outs[1], "C11", "another process wrote the same packet as different bytes",
             [n |-> Len(e.outs)])
-  /\ UNCHANGED <<pool, wanted, from, contig, enc, memo, diag, prog>> /\ KeepStream
+  /\ UNCHANGED <<pool, wanted, smemo, ncall, bystate, from, contig, enc, memo, diag, prog>> /\ KeepStream
 EvRace(e) ==
   /\ Note("C13", "data race reported by the Go race detector", [sites |-> e.sites])
-  /\ UNCHANGED <<pool, wanted, from, contig, enc, memo, diag, prog>> /\ KeepStream
+  /\ UNCHANGED <<pool, wanted, smemo, ncall, bystate, from, contig, enc, memo, diag, prog>> /\ KeepStream
 
+(* an event on a handle the model does not hold (the driver and the model disagree on what exists): noted, skipped *)
+NeedsHandle == {"Diag", "WriteTo", "WriteN", "CallSpread", "CallElem", "ScribbleSlice"}
 Step(e) ==
+  IF e.ev \in NeedsHandle /\ Has(e, "h") /\ e.h \notin DOMAIN pool
+  THEN /\ Note("SPEC", "event names a handle the model does not hold", [ev |-> e.ev, h |-> e.h])
+       /\ UNCHANGED <<pool, wanted, smemo, ncall, bystate, from, contig, enc, memo, diag, prog>> /\ KeepStream
+  ELSE
   IF e.ev = "Reset" THEN EvReset(e)
   ELSE IF e.ev = "New" THEN EvNew(e)
   ELSE IF e.ev = "Pub" THEN EvPub(e)
@@ -499,7 +560,7 @@ DispatchCheck(e, g, rt) ==
 (***************************************************************************)
 (*   a ReadPacket call: RP_Call, (RP_Read ; T_Return)*, RP_Return          *)
 (***************************************************************************)
-KeepObj == UNCHANGED <<pool, wanted, prog, from, contig, enc, memo, diag>>
+KeepObj == UNCHANGED <<pool, wanted, smemo, ncall, bystate, prog, from, contig, enc, memo, diag>>
 
 ReadCall(e) ==                                       \* k = 0
   /\ RP_Call
@@ -551,6 +612,8 @@ ReadReturn(e) ==                                     \* k = Len(calls) + 1
   /\ NoteIf(e.pos1 # pos, "HARNESS", "consumed count differs from the logged reads", [pos1 |-> e.pos1, pos |-> pos])
   \* verdict of the frame
   /\ NoteIf(prog.fam = "seq" /\ v.kind = "accept" /\ ~e.ok, "C06", "a frame of the sequence was not returned by its call", [frame |-> g, pos |-> rp.start])
+  /\ NoteIf(prog.fam = "vbi" /\ v.kind = "accept" /\ ~e.ok, "C15", "a frame with a multi-byte remaining length was not read as announced",
+            [head |-> SubSeq(g, 1, IF Len(g) < 6 THEN Len(g) ELSE 6)])
   /\ IF v.kind = "accept"
      THEN IF ~e.ok THEN Note("C03", "valid frame rejected", [frame |-> g, err |-> IF Has(e, "errtext") THEN e.errtext ELSE ""])
           ELSE /\ NoteIf(rt # v.pkt.t, "C03", "valid frame decoded to another packet type", [wanted |-> v.pkt.t, got |-> rt])
@@ -563,6 +626,14 @@ ReadReturn(e) ==                                     \* k = Len(calls) + 1
      ELSE TRUE
   \* dispatch and header flags (C16), for every frame that yields a packet
   /\ IF judge /\ e.ok /\ Has(e, "obs") THEN DispatchCheck(e, g, rt) ELSE TRUE
+  \* the guarded reads of the decoder (hook H2) against the field map of a valid frame: as-built, a drift note only
+  /\ IF v.kind = "accept" /\ e.ok /\ Has(e, "trail") /\ v.pkt.t # 0
+     THEN LET bodylen == Len(g) - v.hdr
+              seen == {e.trail[j][1] : j \in {i \in 1..Len(e.trail) : e.trail[i][2] = 0 /\ e.trail[i][1] < bodylen}}
+              want == FieldStarts(v.fm, v.hdr, v.pkt.t)
+          IN NoteIf(seen # want, "DRIFT", "the decoder's guarded reads do not start at the field boundaries of the frame",
+                    [frame |-> g, seen |-> seen, fields |-> want])
+     ELSE TRUE
   \* round trip of a packet built through the API (C01)
   /\ IF rtrip
      THEN IF ~e.ok THEN Note("C01", "own output not readable", [frame |-> g, err |-> IF Has(e, "errtext") THEN e.errtext ELSE ""])
@@ -588,13 +659,15 @@ ReadReturn(e) ==                                     \* k = Len(calls) + 1
      IN /\ pool' = IF e.ok /\ Has(e, "obs") /\ rt >= 0 THEN (e.h :> [t |-> rt, o |-> o2, flen |-> Len(g)]) @@ pool ELSE pool
         /\ (e.ok /\ Has(e, "obs") /\ rt >= 0 /\ v.kind = "accept" /\ rt = v.pkt.t => WFCheck(rt, ObsOfWire(v.pkt), e.obs))
         /\ enc' = IF e.ok /\ Has(e, "reenc") /\ ~e.reencFailed /\ rt >= 0
-                  THEN (e.h :> [o |-> o2, bytes |-> e.reenc, clean |-> TRUE]) @@ enc
+                  THEN (e.h :> (IF rtrip /\ e.reenc = g THEN [o |-> o2, bytes |-> e.reenc, clean |-> TRUE, rt |-> TRUE]      \* rt: read back from a
+                                ELSE [o |-> o2, bytes |-> e.reenc, clean |-> TRUE])) @@ enc                              \* packet of the C01 domain
                   ELSE enc
   /\ Bystanders(e, e.h)                              \* reading a frame changes no packet returned earlier
   /\ RP_ReturnEff
   /\ k' = 0 /\ ph' = "req" /\ l' = l + 1
   /\ Drop(e.h)
-  /\ UNCHANGED <<prog, from, contig, diag>>
+  /\ StreamMemo(e, ~contig)
+  /\ UNCHANGED <<prog, from, contig, diag, bystate>>
 
 (* ReadPacket was given a *bufio.Reader (or another standard reader) on top of the transport: the library's own      *)
 (* Read calls are not visible, so the call is judged as a whole, exactly as C06 / C08 state it: everything the          *)
@@ -614,6 +687,8 @@ ReadWrapped(e) ==
      THEN /\ NoteIf(e.pos1 - e.pos0 # hd.total, "C06", "ReadPacket did not take exactly one frame out of the reader",
                      [took |-> e.pos1 - e.pos0, framelen |-> hd.total, frame |-> g])
           /\ NoteIf(v.kind = "accept" /\ ~e.ok, "C03", "valid frame rejected", [frame |-> g])
+          /\ NoteIf(prog.fam = "vbi" /\ v.kind = "accept" /\ ~e.ok, "C15", "a frame with a multi-byte remaining length was not read as announced",
+                    [head |-> SubSeq(g, 1, IF Len(g) < 6 THEN Len(g) ELSE 6)])
           /\ NoteIf(v.kind = "accept" /\ e.ok /\ (rt # v.pkt.t \/ ObsDiff(ObsOfWire(v.pkt), e.obs) # {}), "C03",
                     "accessors differ from the values the frame carries", [frame |-> g])
           /\ NoteIf(v.kind = "reject" /\ e.ok, "C09", "frame that must be rejected was accepted", [cls |-> v.cls, frame |-> g])
@@ -630,7 +705,8 @@ ReadWrapped(e) ==
   /\ Bystanders(e, e.h)
   /\ pos' = IF e.pos1 >= 0 /\ e.pos1 <= limit THEN e.pos1 ELSE pos
   /\ rp' = [rp EXCEPT !.st = "done", !.start = e.pos0, !.got = e.pos1 - e.pos0]
-  /\ UNCHANGED <<wire, limit, fate, with, prog, from, contig, memo, diag>>
+  /\ UNCHANGED <<wire, limit, fate, with, prog, from, contig, memo, diag, bystate>>
+  /\ StreamMemo(e, TRUE)
   /\ Drop(e.h)
   /\ k' = 0 /\ ph' = "req" /\ l' = l + 1
 
@@ -645,6 +721,7 @@ Init ==
   /\ l = 1 /\ k = 0 /\ ph = "req"
   /\ prog = [id |-> "", fam |-> ""]
   /\ pool = EmptyFn /\ enc = EmptyFn /\ memo = EmptyFn /\ diag = EmptyFn /\ wanted = EmptyFn
+  /\ smemo = EmptyFn /\ ncall = 0 /\ bystate = EmptyFn
   /\ from = 0 /\ contig = TRUE
   /\ wire = <<>> /\ limit = 0 /\ fate = "eof" /\ with = FALSE /\ pos = 0 /\ rp = Idle
   /\ TLCSet(1, <<>>) /\ TLCSet(2, EmptyFn) /\ TLCSet(3, 0) /\ TLCSet(4, EmptyFn)
